@@ -36,7 +36,7 @@ func vAnyAddr(site string) vAddr {
 
 func vHarnessCreateTopicValidate() {
 	o := vAnyAddr("owner")
-	msg := &MsgCreateTopicRequest{TopicName: vNondetString("topic", 80), Description: vNondetString("desc", 5100), OwnerAddress: o.s}
+	msg := &MsgCreateTopicRequest{TopicName: vNondetString("topic", 80), Description: vNondetText("desc", 20100), OwnerAddress: o.s}
 	err := msg.ValidateBasic()
 	want := vAll(vSpecTopic(msg.TopicName), len(msg.Description) <= 5000, o.ok)
 	vCheck((err == nil) == want, "C16: CreateTopic accepted iff topic 1-70 of [A-Za-z0-9._-], description <= 5000 bytes, valid owner")
@@ -50,7 +50,7 @@ func vHarnessCreateTopicValidate() {
 
 func vHarnessAddWriterValidate() {
 	o, w := vAnyAddr("owner"), vAnyAddr("writer")
-	msg := &MsgAddWriterRequest{TopicName: vNondetString("topic", 80), Moniker: vNondetString("moniker", 80), Description: vNondetString("desc", 5100), WriterAddress: w.s, OwnerAddress: o.s}
+	msg := &MsgAddWriterRequest{TopicName: vNondetString("topic", 80), Moniker: vNondetString("moniker", 80), Description: vNondetText("desc", 20100), WriterAddress: w.s, OwnerAddress: o.s}
 	err := msg.ValidateBasic()
 	want := vAll(vSpecTopic(msg.TopicName), vSpecMoniker(msg.Moniker), len(msg.Description) <= 5000, o.ok, w.ok)
 	vCheck((err == nil) == want, "C16: AddWriter accepted iff topic, moniker 0-70 of the class, description <= 5000, valid owner and writer")
